@@ -80,4 +80,15 @@ TEXT = {
              note=_std_note + " Float32 is outside the kernel: everything that depends on rounding is differential testing (bit-exact) plus monitors. Retention across joins is the samples-lost monitor on the server harness.",
              technique=_tech + " + bit-exact float32 grid replay + exact-arithmetic index monitors"),
 }
-NA = {}
+_na = ("Lean proof applies to the sequential part of this property and a model exists, but the property theorems were not completed, "
+       "so the property is not claimed rather than decided by a weaker technique; see DESIGN.md section 0.3. ")
+NA = {
+ 'C01': _na + "The view-convergence simulation over Session.handle is unfinished; the schedule clause needs the lock-granularity layer, which is not built.",
+ 'C03': _na + "Frame lemmas (Proofs/Frame.lean) exist; the noninterference theorem (re-running a history without the other sessions' traffic) is unfinished.",
+ 'C08': "Process-level robustness (server keeps running, handler returns, goroutines end, gauge restored, idle timeout) lives in the runtime: it needs a wire-level harness and a "
+        "model of the handler's goroutines and channels (Layer L), neither of which is built. Panics and wedges found on the way (pose without pose, dagaz requests) were fixed in /repo; "
+        "see DESIGN.md section 0.4.",
+ 'C09': "Data races and deadlocks exist only in schedules; a lock-granularity scheduler over the real code and -race runs are not built. Lock, field and channel facts are extracted "
+        "but no theorem or check decides them.",
+ 'C11': _na + "Ordering and coalescing over recv / tick / handle interleavings is expressible on the model's event alphabet, but the theorems are unfinished.",
+}
